@@ -88,6 +88,15 @@ def routes(o):
         rs.append(('Ranges.push', 'Ranges().push(%r, %s)' % (ref, lit(x)), push))
         f = '=%s' % lit(x)
         rs.append(('cell', 'Cell(%r, %r)' % (ref, f), lambda f=f: eval_range(tuple(dst), f)))
+        if x['k'] == 'a':
+            # the same array handed through IF on the result of an IS function (the boolean
+            # array classes of the library must not leak into what the range is padded with)
+            f3 = '=IF(ISERROR(%s),%s,%s)' % (lit(x), lit(x), lit(x))
+            rs.append(('cell-through-IS', 'Cell(%r, %r)' % (ref, f3),
+                       lambda f3=f3: eval_range(tuple(dst), f3)))
+            f4 = '=IF(ISNUMBER(%s),%s,%s)' % (lit(x), lit(x), lit(x))
+            rs.append(('cell-through-IS', 'Cell(%r, %r)' % (ref, f4),
+                       lambda f4=f4: eval_range(tuple(dst), f4)))
         if x['k'] != 'a':
             # the same single value as the *result of an operator* (an Array of one element)
             comp = {'n': '=(%s+0)', 't': '=(%s&"")', 'b': '=(%s=TRUE)', 'e': '=(%s+0)'}.get(x['k'])
@@ -124,7 +133,7 @@ def _shard(obls):
     return out
 
 
-def categorize(o, obs):
+def categorize(o, obs, route=None):
     kind, x, y = o['kind'], o['x'], o['y']
     if kind in ('+', '&', '=', '*'):
         (r1, c1), (r2, c2) = shape(x), shape(y)
@@ -134,7 +143,15 @@ def categorize(o, obs):
     if kind == 'fit':
         (r, c), (dr, dc) = shape(x), tuple(o['dst'])
         if (r > 1 or c > 1) and (r != dr or c != dc):
-            return 'fit-array-into-range-of-other-shape'
+            # the recorded finding: the array is flattened and refilled (numpy resize), which
+            # is only right when the destination is at least as large in both directions
+            # (padding / repeating works), or keeps the width and drops rows, or is one row
+            grows = dr >= r and dc >= c
+            prefix = (dc == c and dr <= r) or (dr == 1 and dc <= c)
+            if route and route.startswith('Ranges.push'):
+                prefix = False          # Ranges.push only pads
+            if not (grows or prefix):
+                return 'fit-array-into-range-of-other-shape'
     if kind == 'concat' and y['n'] >= 32:
         return 'element-wise-function-with-32-or-more-arguments'
     return None
@@ -163,7 +180,7 @@ def main():
         rep.count()
         rep.distinct((o['kind'], V.show(o['x']), V.show(o['y']), str(o['dst'])))
         if not ok:
-            cat = categorize(o, obs)
+            cat = categorize(o, obs, route)
             got = V.show(obs) if obs['k'] != 'raise' else 'raise:' + obs['repr'].split(':')[0]
             sig = {'cat': cat, 'route': route.split(' ')[0]} if cat else \
                 {'kind': o['kind'], 'x': V.show(o['x']), 'y': V.show(o['y']),
